@@ -99,12 +99,22 @@ Theorem C25_statement_glue : forall w n x f,
   (forall pos p, check_pos pos = Ok p ->
      let r := istep (mkI f (fs_buf x)) (RGet p) in
      wstep w (WGet n pos) = (wset n (mkFS (fs_disk x) (Some (i_file (fst r))) (i_buf (fst r))) w, Ok (snd r))) /\
-  wstep w (WQuery n) = (w, Ok (snd (istep (mkI f (fs_buf x)) RQuery))) /\
+  wstep w (WQuery n) = (w, Ok (as_singles (snd (istep (mkI f (fs_buf x)) RQuery)))) /\
   (forall off wd rj d, 0 <= off -> 0 <= wd -> off + wd <= field_size ->
      wstep w (WField n off wd rj d) =
        (wset n (mkFS (fs_disk x) (Some f) (i_buf (fst (istep (mkI f (fs_buf x)) (RSet off wd rj d))))) w, Ok [])).
 Proof. exact wstep_runs_istep. Qed.
 Print Assumptions C25_statement_glue.
+
+(* LOF() and LOC() are returned as BASIC single-precision numbers: the exact value below 2^24 (16 MB, record
+   16777216); above that the value is cut to 24 significant bits (fixes/K25a.json) *)
+Theorem C25_lof_loc_functions_exact : forall x, Z.abs x < 2 ^ 24 -> single_trunc x = x.
+Proof. exact single_trunc_small. Qed.
+Print Assumptions C25_lof_loc_functions_exact.
+
+Theorem C25_loc_function_rounds_above_2_24 : single_trunc 16777217 = 16777216.
+Proof. reflexivity. Qed.
+Print Assumptions C25_loc_function_rounds_above_2_24.
 
 (* ---- the regenerated pointer arithmetic is the byte arithmetic the proofs need (false before fixes/D7.patch:
    there the gap test was `recpos > lof` and the padding `(recpos - lof) * reclen`) *)
